@@ -94,7 +94,7 @@ Section Term.
         { rewrite Hq. eapply mono_trans; [|exact Hm]. subst st0. cbn [reg set_reg]. apply mono_add_factory. }
         destruct ov as [e|].
         * destruct w as [v|].
-          -- destruct (stale_dependents vt st2 n); split; try exact I; intros st' v' H; inversion H; subst; exact Hmono.
+          -- destruct (stale_dependents vt st2 n _); split; try exact I; intros st' v' H; inversion H; subst; exact Hmono.
           -- split; [exact I|]. intros st' v' H; inversion H; subst; exact Hmono.
         * split; [exact I|]. intros st' v' H; inversion H; subst; exact Hmono.
       + split; [|intros ? ? H; discriminate]. destruct k3 as [e| |]; [exact I|exact I|exact Hg].
